@@ -16,7 +16,7 @@ for d in sorted(glob.glob(os.path.join(V, "seeded", "*", "meta.json"))):
         if v.get("exit") == 1:
             sigs += ["%s: %s" % (pid, s.split("/", 1)[1]) for s in v.get("signatures", [])[:2]]
     hist = m.get("history", "")
-    status = "NOT caught: equivalent / ambiguous inside the statements (see meta.json)" if hist.startswith("NOT caught") else "caught by another property's check (see meta.json)" if hist.startswith("caught by C") else "caught by the first quick run" if not hist else ("check strengthened before it was run" if "before this change was run" in hist else "missed at first; check strengthened")
+    status = "superseded by a later repair of the repository (see meta.json)" if m.get("superseded") else "NOT caught: equivalent / ambiguous inside the statements (see meta.json)" if hist.startswith("NOT caught") else "caught by another property's check (see meta.json)" if hist.startswith("caught by C") else "caught by the first quick run" if not hist else ("check strengthened before it was run" if "before this change was run" in hist else "missed at first; check strengthened")
     rows.append("| %s | %s | `%s` | %s |" % (m["name"], what, "; ".join(sigs[:3]), status))
 out = ["# Seeded property-breaking changes", "",
        "Every entry: patch.diff (applies to the current /repo), demo.py (fails with / passes without the change), notes.md (the author's",
